@@ -158,4 +158,5 @@ def harnesses(tier):
     return [
         ("amplitudes", h_amplitudes, amp_cases(tier)),
         ("unit-vector", h_unit_vector, unit_cases(tier)),
+        ("unit-vector.raw", h_unit_vector, [c for c in unit_cases(tier) if c["k"] <= 2], dict(raw=True)),
     ]
